@@ -22,7 +22,18 @@ def showLicense : Outcome License.License → String
 
 def noBody : Nat → Bytes → Outcome V23 := fun _ _ => .err "external"
 
-def step (ws : List String) : Ans :=
+/-- the spec of an encrypt/decrypt round trip is a predicate on the implementation's answer:
+the ciphertext is 32 alphabet characters and it decrypts to the key. It does not pin the
+ciphertext itself. -/
+def rtSpecHolds (impl : String) (k : Bytes) : Bool :=
+  match impl.splitOn " " with
+  | [e, "dec=ok", d] =>
+      match (e.dropPrefix? "enc=").bind (fun x => bytesOfHex x.toString) with
+      | some eb => validKeyString eb && d == hexOfBytes k
+      | none => false
+  | _ => false
+
+def step (ws : List String) (impl : String) : Ans :=
   match ws with
   | ["rt", c, k] =>
       match parseCipher c, bytesOfHex k with
@@ -30,9 +41,10 @@ def step (ws : List String) : Ans :=
           match encryptKey c k with
           | .ok e =>
               let d := decryptKey c e
-              let encOk := validKeyString e
-              { m := s!"enc={hexOfBytes e} dec={outcomeHex d}",
-                s := if encOk then s!"enc={hexOfBytes e} dec=ok {hexOfBytes k}" else "enc=INVALID" }
+              let m := s!"enc={hexOfBytes e} dec={outcomeHex d}"
+              let mOk := validKeyString e && outcomeHex d == "ok " ++ hexOfBytes k
+              { m := m,
+                s := if rtSpecHolds impl k then impl else if mOk then m else s!"enc=<32 alphabet chars> dec=ok {hexOfBytes k}" }
           | .err _ => { m := "err" }
           | .panic _ => { m := "panic" }
       | _, _ => bad
@@ -40,8 +52,12 @@ def step (ws : List String) : Ans :=
       match parseCipher c, bytesOfHex s with
       | some c, some s =>
           let d := decryptKey c s
+          -- spec: not 32 alphabet characters ⇒ error; otherwise some 24-byte key
+          let implOkKey : Bool := match impl.splitOn " " with
+            | ["ok", h] => (bytesOfHex h).map (·.length == 24) == some true
+            | _ => false
           { m := outcomeHex d,
-            s := if validKeyString s then (match d with | .ok _ => "=" | _ => "ok ?") else "err" }
+            s := if validKeyString s then (if implOkKey then impl else "=") else "err" }
       | _, _ => bad
   | ["b64", k] =>
       match bytesOfHex k with
